@@ -188,6 +188,28 @@ CLAIMED["C03"] = (
     "'For every pair of states' is covered by differential testing against a reference plus a short mathematical argument, not by enumeration; the statistical part has a resolution (about 6 standard errors at the stated M). K1 and K3 are recorded findings (classified by kernel+folding, resp. by label scheme + measured cluster-crossing rate).",
     "DESIGN.md §2 C03",
 )
+CLAIMED["C01"] = (
+    "exploration",
+    "seeded ensembles of full sampler runs on generated targets with quadrature-known truth; two-stage t-test with a finite-particle allowance (|mean error| <= t* s/sqrt(R) + 3 s^2) per standardised estimand; known-finding classification by kernel/folding/crossing rate",
+    "Cells (target family with generated parameters x kernel x resampler x clustering) are generated from VERIF_SEED, stratified over seven target "
+    "families (interior, wall-abutting, bimodal, periodic incl. seam-centred, reflective, exp-transformed prior, zero-likelihood slab); R "
+    "independently seeded complete runs per cell give standardised errors of means, variances, marginal CDF, mode mass and circular moments for "
+    "both the untrimmed and the default trimmed posterior() output; a systematic error beyond Monte-Carlo error plus an allowance that shrinks "
+    "like 1/N is flagged, re-run with fresh seeds and twice the replicas, and only then reported. The claim is about the ensemble of seeds, which "
+    "only replicated generated runs can address.",
+    "A statistical verdict bounds a bias, it does not prove its absence: resolution ~0.1 sd (means) / ~15% (variances) quick, a few % thorough. Truth = composite Simpson quadrature, independent of tempest.",
+    "DESIGN.md §2 C01",
+)
+CLAIMED["C02"] = (
+    "exploration",
+    "seeded ensembles at N and 4N against quadrature-known log-evidence (two-stage t-test, Jensen allowance 1.5 s^2, spread must shrink) + metamorphic twin samplers whose seeds diverge at a generated iteration",
+    "For generated cells the mean error of log Z over R independently seeded runs must be within t* s/sqrt(R) + 1.5 s^2 at N and again at 4N "
+    "(an error that persists fails at 4N), the per-run spread must shrink by at least 0.8 from N to 4N, and - since the bound on the R-replica "
+    "mean shrinks like 1/sqrt(R) - a component common to all runs fails it. Independence is additionally decided through its mechanism: twin "
+    "samplers in bit-identical states must produce different batches and a different global stream after their seeds diverge.",
+    "Statistical independence cannot be established from samples; what is tested is the coupling mechanism and its visible consequence. Resolution is reported per cell in the evidence.",
+    "DESIGN.md §2 C02",
+)
 
 ALL = [f"C{i:02d}" for i in range(1, 21)]
 
